@@ -52,18 +52,15 @@ func runInterleaved(c ICase) *ev.Failure {
 	msgs, all := c.streams()
 	n := len(c.Conns)
 	conns := make([]*memnet.Conn, n)
-	got := make([]chan []byte, n)
+	got := make([]chan *diam.Message, n)
 	stop := make(chan struct{})
 	defer close(stop)
 	for i := 0; i < n; i++ {
 		i := i
 		conns[i] = memnet.NewConn()
-		got[i] = make(chan []byte, len(msgs[i])+8)
+		got[i] = make(chan *diam.Message, len(msgs[i])+8)
 		mux := diam.NewServeMux()
-		mux.HandleFunc("ALL", func(_ diam.Conn, m *diam.Message) {
-			b, _ := m.Serialize()
-			got[i] <- b
-		})
+		mux.HandleFunc("ALL", func(_ diam.Conn, m *diam.Message) { got[i] <- m })
 		go func() {
 			for {
 				select {
@@ -112,7 +109,8 @@ func runInterleaved(c ICase) *ev.Failure {
 		}
 		close(got[i])
 		var recv [][]byte
-		for b := range got[i] {
+		for m := range got[i] {
+			b, _ := m.Serialize()
 			recv = append(recv, b)
 		}
 		if len(recv) != len(msgs[i]) {
